@@ -193,6 +193,66 @@ def gen_plan(rng, lib_ids, families, tier):
     return {"sessions": picks, "kinds": kinds, "burst": rng.choice([0.0, 0.4, 0.8]), "clock_start_days": rng.randrange(0, 700)}
 
 
+def systematic_traces(lib_by_id, tier):
+    """The part of the schedule space that is enumerated instead of sampled: the pairs most
+    likely to collide on process-wide state are (a description, its near twins) and the members
+    of one family/group.  Each chain runs its sessions one after the other, so session j is
+    rendered in a process that has already built and rendered sessions 0..j-1; the 'interleaved
+    construction' variant creates every network first and only then continues each script.
+    No faults, no foreign writers: these runs isolate description-vs-description influence."""
+    ids = sorted(lib_by_id)
+    base = [i for i in ids if "~t" not in i]
+    fam = lambda i: lib_by_id[i]["family"]
+    group = lambda i: "-".join(fam(i).replace("~tw", "").split("-")[:2])
+    nsteps = lambda i: len(lib_by_id[i]["steps"])
+    traces = []
+
+    def chain(sessions, interleave_new=False):
+        evs = []
+        if interleave_new:
+            heads = [1 if lib_by_id[d]["steps"][0]["s"] == "new" else 0 for d in sessions]
+            for k, d in enumerate(sessions):
+                evs += [{"e": "step", "session": k}] * heads[k]
+            for k, d in enumerate(sessions):
+                evs += [{"e": "step", "session": k}] * (nsteps(d) - heads[k])
+        else:
+            for k, d in enumerate(sessions):
+                evs += [{"e": "step", "session": k}] * nsteps(d)
+        traces.append({"sessions": list(sessions), "kinds": {k: False for k in ("victim-open-fail", "victim-render-enospc",
+                       "aggressor-abort", "foreign", "clock")}, "burst": 0.0,
+                       "clock_start_days": K.hash64("|".join(sessions)) % 700, "events": [dict(e) for e in evs]})
+
+    for d in base:
+        tw = [i for i in ids if i.startswith(d + "~t")]
+        if not tw:
+            continue
+        if tier == "quick":
+            chain([d] + tw + [d])
+            chain([d] + tw, interleave_new=True)
+        else:
+            for t in tw:
+                chain([d, t, d])
+                chain([t, d, t])
+                chain([d, t], interleave_new=True)
+                chain([t, d], interleave_new=True)
+    fams = {}
+    for i in base:
+        fams.setdefault(fam(i), []).append(i)
+    for f in sorted(fams):
+        m = fams[f][:6] if tier == "quick" else fams[f][:12]
+        if len(m) >= 2:
+            chain(m + m[-2::-1])
+            chain(m, interleave_new=True)
+    groups = {}
+    for f in sorted(fams):
+        groups.setdefault(group(fams[f][0]), []).append(fams[f][-1])
+    for g in sorted(groups):
+        m = groups[g]
+        if len(m) >= 2:
+            chain(m + m[-2::-1])
+    return traces
+
+
 def execute(plan_or_trace, lib_by_id, refs, rundir, rng=None, neutralise=None):
     """Run one simulation. With rng: draw the schedule/faults and record them (returns the
     trace).  Without: replay an explicit trace.  Returns dict(trace, violation, stats)."""
@@ -630,21 +690,28 @@ _G = {}
 
 
 def _worker(task):
-    lo, hi = task
     seed, tier = _G["seed"], _G["tier"]
     lib_by_id, refs = _G["lib_by_id"], _G["refs"]
     fam_of = _G["fam_of"]
     families = sorted(set(fam_of.values()))
     base = os.path.join(_G["scratch"], f"c17-w{os.getpid()}")
     stats = {"runs": 0, "renders": 0, "steps": 0, "faults": {}, "clock_jumps": 0, "month_cross": 0, "year_cross": 0,
-             "pairs": set(), "interleavings": set(), "faultfree_runs": 0}
+             "pairs": set(), "interleavings": set(), "faultfree_runs": 0, "systematic_runs": 0}
     viols, digests, samples = [], [], []
-    for index in range(lo, hi):
-        rng = K.rng_for(seed, PROP, index)
-        plan = gen_plan(rng, fam_of, families, tier)
+    if task[0] == "sys":
+        todo = [(-(n + 1), None, tr) for n, tr in task[1]]
+    else:
+        todo = [(index, K.rng_for(seed, PROP, index), None) for index in range(task[1], task[2])]
+    for index, rng, tr in todo:
         rundir = os.path.join(base, "r")
         shutil.rmtree(rundir, ignore_errors=True)
-        r = execute_isolated(plan, lib_by_id, refs, rundir, rng=rng)
+        if tr is None:
+            plan = gen_plan(rng, fam_of, families, tier)
+            r = execute_isolated(plan, lib_by_id, refs, rundir, rng=rng)
+        else:
+            plan = tr
+            r = execute_isolated(tr, lib_by_id, refs, rundir)
+            stats["systematic_runs"] += 1
         st = r["stats"]
         stats["runs"] += 1
         for k in ("renders", "steps", "clock_jumps", "month_cross", "year_cross"):
@@ -694,7 +761,12 @@ def main(argv):
     if os.environ.get("C17_RUNS"):
         nruns = int(os.environ["C17_RUNS"])
     chunk = int(os.environ.get("C17_CHUNK", "2"))
-    tasks = [(i, min(i + chunk, nruns)) for i in range(0, nruns, chunk)]
+    sys_traces = list(enumerate(systematic_traces(lib_by_id, tier)))
+    if os.environ.get("C17_NO_SYSTEMATIC"):
+        sys_traces = []
+    # the enumerated stratum first (it is the part that must not be cut by the time budget)
+    tasks = [("sys", sys_traces[i:i + chunk]) for i in range(0, len(sys_traces), chunk)]
+    tasks += [("rnd", i, min(i + chunk, nruns)) for i in range(0, nruns, chunk)]
     G = dict(seed=seed, tier=tier, scratch=scratch, lib_by_id=lib_by_id, refs=refs, fam_of=fam_of)
     _G.update(G)
     budget = {"quick": 200, "thorough": 3300}[tier]
@@ -711,10 +783,10 @@ def main(argv):
     done = [p for p in parts if p is not None]
     skipped = len(parts) - len(done)
     tot = {"runs": 0, "renders": 0, "steps": 0, "faults": {}, "clock_jumps": 0, "month_cross": 0, "year_cross": 0,
-           "pairs": set(), "interleavings": set(), "faultfree_runs": 0}
+           "pairs": set(), "interleavings": set(), "faultfree_runs": 0, "systematic_runs": 0}
     for p in done:
         s = p["stats"]
-        for k in ("runs", "renders", "steps", "clock_jumps", "month_cross", "year_cross", "faultfree_runs"):
+        for k in ("runs", "renders", "steps", "clock_jumps", "month_cross", "year_cross", "faultfree_runs", "systematic_runs"):
             tot[k] += s[k]
         for k, v in s["faults"].items():
             tot["faults"][k] = tot["faults"].get(k, 0) + v
@@ -767,6 +839,8 @@ def main(argv):
         "samples": samples,
         "exhaustive": False,
         "runs": tot["runs"],
+        "systematic_runs": tot["systematic_runs"],
+        "systematic_runs_planned": len(sys_traces),
         "runs_per_hour": int(tot["runs"] / max(wall - ref_s, 1e-6) * 3600),
         "renders_compared": tot["renders"],
         "session_steps": tot["steps"],
